@@ -88,6 +88,14 @@ def run(ck):
     cols_rule(ck, prog)   # the number of committed columns holds every coefficient of the composition polynomial
     from . import derived
     derived.run(ck, prog, None)
+    # DEDUP: `dedup` computes a set (and `last` a maximum) only on a sorted vector — table sizes in the constraint evaluators
+    from .stale import unsorted_dedup_sites
+    ck.rule("DEDUP", "every Vec::dedup in the constraint-evaluation code is applied to a vector sorted on every path before it")
+    for f_, b_, ok_ in unsorted_dedup_sites(prog, lambda f: f.crate == "winter_prover" and "::constraints::" in f.nname):
+        ck.saw(f_)
+        ck.ob("DEDUP", f"{f_.nname.split('::')[-2]}::{f_.nname.split('::')[-1]}:dedup-after-sort", ok_,
+              f"{f_.nname.split('::')[-1]}: the vector handed to dedup() was sorted before (adjacent duplicates only are removed)", loc=f_.loc(b_, "T"),
+              detail=None if ok_ else "dedup() on an unsorted vector leaves repeated values and does not order them: `last()` is not the maximum")
     folding(ck, prog)
     c02.partition_rules(ck, prog)
     c02.dropped(ck, prog)
